@@ -554,6 +554,37 @@ theorem sublist_stop_ends_only_the_step (T : EnglishTables) (f : Nat) (body : Li
   rw [iterLists]
   simp [hmax, hs, hrun, bind, Except.bind]
 
+/-! ## what ~& and ~T look at is a function of the WHOLE output so far
+
+These two facts are why an implementation must not answer ~& / ~T from the last written piece
+(a flushed buffer) alone: the column of `a ++ b` is the column of `b` only when `b` contains a line
+break, and whether the output ends in a newline is decided by `b` only when `b` is not empty. -/
+
+theorem column_append (a b : Txt) :
+    column (a ++ b) = if b.all (fun c => !isLineBreak c) then column a + b.length else column b := by
+  unfold column
+  rw [List.reverse_append, takeWhile_append_all]
+  simp only [List.all_reverse]
+  split
+  · simp [Nat.add_comm]
+  · rfl
+
+theorem endsWithNewline_append (a b : Txt) :
+    endsWithNewline (a ++ b) = if b = [] then endsWithNewline a else endsWithNewline b := by
+  unfold endsWithNewline
+  by_cases hb : b = []
+  · simp [hb]
+  · simp only [hb, if_false]
+    rw [List.getLast?_append]
+    cases h : b.getLast? with
+    | none => simp [List.getLast?_eq_none_iff] at h; exact absurd h hb
+    | some x => simp
+
+/-- the ~newline directive writes nothing -/
+theorem newline_directive_writes_nothing (T : EnglishTables) (f : Nat) (st : St) :
+    runItem T (f + 1) .nop st = .ok (st, .cont) := by
+  simp [runItem]
+
 /-- destination independence: the text a stream receives is the text `(format nil …)` returns -/
 theorem dest_independent (ctrl : Txt) (args : List Arg) (pre : Txt) (t : Txt)
     (h : format .nil ctrl args = .ok { value := some t, stream := none }) :
